@@ -564,7 +564,9 @@ def square_multiply(cx, rule, suffix):
     # the current bit is either the top bit of a shifting copy of the limb, or bit 63, 62, .. 0 of the limb itself
     shifting = has_w and tr.get('w') == 'Shl(var:w@in, 1)'
     bit_tests = ['BitAnd(var:w@in, 0x8000000000000000)'] if shifting else ['BitAnd(Shr(%s, each(rev(Range::Range{0, 64}))), 1)' % LIMB]
-    cx.add(rule, inst + '/step', alts == sorted([sq, mul]) and (shifting or not has_w),
+    # (a local that merely holds the current limb and is not changed inside the bit loop is not a shifting copy)
+    plain_w = has_w and not shifting and tr.get('w') in (None, LIMB, 'var:w@in')
+    cx.add(rule, inst + '/step', alts == sorted([sq, mul]) and (shifting or not has_w or plain_w),
            'one bit step: %s = %s^2, times the base when the current bit is set; the bits are taken from the top down (got %s; w = %s)' % (acc, acc, FR_short(got), tr.get('w')), fn.loc(), {'got': tr})
     ih, icomp, _ = inner
     oh, ocomp, olatches = outer
